@@ -75,3 +75,133 @@ Proof.
       try (match goal with H : Some _ = Some ?x |- _ => injection H as <-; discriminate end).
   - vm_compute. eauto.
 Qed.
+
+(* ================================================================ composition with the reference
+   interpreter of C01 (Model/Evm.v: do_call / do_create / exec over the frame functions above).
+   Proofs in Proofs/EvmMiscProofs.v (on top of Proofs/EvmFrameProofs.v).
+   [depth_inv G]: the journal depth is the number of open frame checkpoints (the invariant of
+   C07_depth_is_number_of_open_frames in the interpreter's state).
+   [reach W f G F I Gx Fx Ix]: the run [exec f W G F I] executes an instruction from (Gx, Fx, Ix),
+   in the frame itself or in a frame nested at any depth below it. *)
+From RevmV Require Import Model.Step Model.Evm Proofs.EvmProofs Proofs.EvmFrameProofs Proofs.EvmMiscProofs.
+From RevmV Require Proofs.EvmGasProofs.
+
+(* the transaction starts inside the invariant, at depth 0 *)
+Theorem C07_interpreter_initial_state :
+  forall W, depth_inv (gstate_new W) /\ Host.depth (gs (gstate_new W)) = 0.
+Proof. intros W. split; reflexivity. Qed.
+
+(* ... and so does the first frame: the state run_tx hands to it after load_access_list,
+   deduct_caller and the EIP-7702 authorisations ([tx_before_frame], the prefix of run_tx) *)
+Theorem C07_interpreter_first_frame_starts_at_depth_0 :
+  forall W G2 n, EvmGasProofs.tx_before_frame W = Some (G2, n) -> depth_inv G2 /\ Host.depth (gs G2) = 0.
+Proof. exact tx_first_frame_state. Qed.
+
+(* during a run the depth never exceeds 1024 + 1 (the transaction frame plus 1024 nested ones),
+   stays the number of open frames, and is never below the depth of the frame that is running *)
+Theorem C07_interpreter_depth_bounded :
+  forall W f G F I Gx Fx Ix,
+    reach W f G F I Gx Fx Ix -> depth_inv G -> Host.depth (gs G) <= 1025 ->
+    depth_inv Gx /\ Host.depth (gs G) <= Host.depth (gs Gx) <= 1025.
+Proof. exact reach_depth. Qed.
+
+(* a child frame is entered only from depth <= 1024 and lies exactly one level deeper *)
+Theorem C07_interpreter_child_is_one_level_deeper :
+  forall W G Gc Fc Ic,
+    (forall c, call_child W G c = Some (Gc, Fc, Ic) ->
+       Host.depth (gs G) <= 1024 /\ Host.depth (gs Gc) = Host.depth (gs G) + 1 /\
+       exists cp, snd (g_sc Gc) = cp :: snd (g_sc G)) /\
+    (forall c, create_child W G c = Some (Gc, Fc, Ic) ->
+       Host.depth (gs G) <= 1024 /\ Host.depth (gs Gc) = Host.depth (gs G) + 1 /\
+       exists cp, snd (g_sc Gc) = cp :: snd (g_sc G)).
+Proof. intros W G Gc Fc Ic. split; intros c; [apply call_child_depth|apply create_child_depth]. Qed.
+
+(* a CALL-family request issued at depth > 1024 is answered CallTooDeep with all the gas it was
+   given: no frame is opened, the child interpreter is not run ([rec] is arbitrary), and the whole
+   transaction state (journaled state, checkpoints, code table, logs) is what it was *)
+Theorem C07_interpreter_call_too_deep :
+  forall W rec G c,
+    Host.depth (gs G) > 1024 ->
+    call_child W G c = None /\
+    do_call W rec G c = XDone (G, mkIR R_CallTooDeep [] (Gas.gas_new (cq_gas_limit c))).
+Proof. exact do_call_too_deep. Qed.
+
+Theorem C07_interpreter_create_too_deep :
+  forall W rec G c,
+    Host.depth (gs G) > 1024 ->
+    create_child W G c = None /\
+    do_create W rec G c = XDone (G, mkIR R_CallTooDeep [] (Gas.gas_new (kq_gas_limit c)), None).
+Proof. exact do_create_too_deep. Qed.
+
+(* ... and at depth <= 1024 the depth check does not fire *)
+Theorem C07_interpreter_no_rejection_up_to_limit :
+  forall W G c sc' r,
+    Host.depth (gs G) <= 1024 ->
+    make_call_frame (gdb W G) (g_sc G) (call_ci W c) = Some (sc', r) -> r <> FResult RCallTooDeep.
+Proof. exact do_call_not_too_deep. Qed.
+
+(* what the caller sees of a rejected call: 0 pushed, the gas handed over is back, return data
+   empty, memory and program order untouched *)
+Theorem C07_interpreter_caller_after_too_deep :
+  forall I c gl,
+    0 <= gl -> 0 <= Gas.remaining (i_gas I) -> Gas.remaining (i_gas I) + gl < pow64 ->
+    exists g, insert_call_outcome I c (mkIR R_CallTooDeep [] (Gas.gas_new gl)) =
+              Some (mkI (i_pc I + 1) (0 :: i_stk I) (i_mem I) g []) /\
+              Gas.remaining g = Gas.remaining (i_gas I) + gl /\ Gas.limit g = Gas.limit (i_gas I) /\
+              Gas.refunded g = Gas.refunded (i_gas I).
+Proof. exact insert_too_deep. Qed.
+
+(* every frame, every call and every create returns with the depth and the open checkpoints it
+   started from, whatever its outcome and whatever was nested inside; the invariant survives *)
+Theorem C07_interpreter_frame_restores_depth :
+  forall W f G F I G' r,
+    exec f W G F I = XDone (G', r) ->
+    Host.depth (gs G') = Host.depth (gs G) /\ snd (g_sc G') = snd (g_sc G) /\ (depth_inv G -> depth_inv G').
+Proof. exact frame_restores_depth. Qed.
+Theorem C07_interpreter_call_restores_depth :
+  forall W f G c G' r,
+    do_call W (exec f W) G c = XDone (G', r) ->
+    Host.depth (gs G') = Host.depth (gs G) /\ snd (g_sc G') = snd (g_sc G) /\ (depth_inv G -> depth_inv G').
+Proof. exact call_restores_depth. Qed.
+Theorem C07_interpreter_create_restores_depth :
+  forall W f G c G' r a,
+    do_create W (exec f W) G c = XDone (G', r, a) ->
+    Host.depth (gs G') = Host.depth (gs G) /\ snd (g_sc G') = snd (g_sc G) /\ (depth_inv G -> depth_inv G').
+Proof. exact create_restores_depth. Qed.
+
+(* do_call / do_create run the child frame exactly from [call_child] / [create_child] (so the
+   states of [reach] are the states of the real run) *)
+Theorem C07_interpreter_child_is_what_do_call_runs :
+  forall W rec G c G1 F1 I1,
+    call_child W G c = Some (G1, F1, I1) ->
+    do_call W rec G c =
+      match rec G1 F1 I1 with
+      | XDone (G2, r) =>
+          match call_return (g_sc G2) (is_ok (ir_res r)) with
+          | Some sc3 => XDone (set_sc G2 sc3, r)
+          | None => XBad BAD_PANIC
+          end
+      | XOutOfFuel => XOutOfFuel
+      | XBad k => XBad k
+      end.
+Proof. exact do_call_child_some. Qed.
+
+(* non-vacuity: a contract that calls itself (PUSH1 0 x5; ADDRESS; GAS; CALL; STOP): the run
+   enters the child one level deeper; a request at depth 1025 is rejected without a frame *)
+Definition ex7_rcode : list Z := [0x60;0;0x60;0;0x60;0;0x60;0;0x60;0;0x30;0x5a;0xf1;0x00].
+Example C07_interpreter_example :
+  let W := mx_world ex7_rcode in let F := mx_frame ex7_rcode in let G := gstate_new W in
+  depth_inv G /\
+  (exists Gc Fc Ic, reach W 9 G F (istate_new 100000) Gc Fc Ic /\
+                    Host.depth (gs Gc) = Host.depth (gs G) + 1 /\ f_code Fc = ex7_rcode) /\
+  (let Gd := set_s G (set_depth (gs G) 1025) in
+   do_call W (fun _ _ _ => XOutOfFuel) Gd (mkCall SchCall 1000 0x1000 0x1000 0x1000 0 true false [] 0 0)
+   = XDone (Gd, mkIR R_CallTooDeep [] (Gas.gas_new 1000))).
+Proof.
+  intros W F G. split; [reflexivity|split].
+  - eexists. eexists. eexists. split.
+    + do 7 (eapply RNext; [vm_compute; reflexivity|]).
+      eapply RCallIn; [vm_compute; reflexivity|vm_compute; reflexivity|apply RHere].
+    + vm_compute. split; reflexivity.
+  - apply do_call_too_deep. vm_compute. reflexivity.
+Qed.
